@@ -1,5 +1,7 @@
 import Ypv.Lemmas.Diff
 import Ypv.Lemmas.DiffKey
+import Ypv.Lemmas.DiffAll
+import Ypv.Lemmas.DiffRules
 /-!
 # C06 — a diff is truthful and complete; it is empty of changes iff the data are equal
 
@@ -66,18 +68,15 @@ theorem diff_clean_iff_dataEq_strict (c : Cfg) (hc : NoKeySync c) (l r : Node)
     | exact Ypv.Diff.Proofs.diff_clean_iff_dataEq_strict ..
     | (apply Ypv.Diff.Proofs.diff_clean_iff_dataEq_strict <;> assumption)
 
-/- FULL STATEMENT (not proved in this generality):
+/- FULL STATEMENT
      theorem diff_clean_iff_dataEq (c : Cfg) (l r : Node) (hl : wf l) (hr : wf r)
-         (hu : UniqueIdentityKeys c l r)   -- only for c.aoh ∈ {key, deep}
+         (hu : UniqueIdentityKeys c l r)   -- only a condition for c.aoh ∈ {key, deep}
          (hv : report c l r = diff true c l r) :
          clean (report c l r) = true ↔ dataEq c l r = true
-   for every array mode and AoH mode.  PROVED: all array modes × the AoH modes position / dpos /
-   value (`diff_clean_iff_dataEq_partial`), and one list level of the identity-key mode `key`
-   (`key_clean_iff_msEq`).  MISSING: the document-level statement for `key` and `deep` (threading
-   the identity hypothesis through the recursion; for `deep` the pairing by identity value has to be
-   related to the recursive `dataEqMs`).  For those two modes the document-level facts proved are
-   `diff_refl`, `sync_accounting` and `key_report_follows_sync`; the equivalence is checked on the real
-   code by the harness against an independent Python oracle. -/
+   for every array mode and AoH mode: PROVED as `diff_clean_iff_dataEq_all_partial` below (section "Every array
+   mode × every AoH mode"), with `UniqueIdentityKeys := idOk` (Spec/Diff.lean, decidable; finding C06-K2's class
+   is its negation) and `hv` excluding finding C06-K1's class.  The theorems of this section are its instances
+   for the modes without identity-key synchronisation (`idOk_of_noKeySync`: `idOk` holds of every pair there). -/
 
 /-- (`_partial`: AoH modes `key`/`deep` not covered; the class of finding C06-K1 is excluded by the
 decidable hypothesis `hv`.)  **The report of the code is clean exactly when the documents are
@@ -242,7 +241,7 @@ theorem diff_clean_iff_dataEq_key_strict (c : Cfg) (hc : KeyPos c) (l r : Node)
 
 open Ypv.Diff.KeyDoc in
 /-- (`_partial`: the classes of findings C06-K1 — `hv` — and C06-K2 — `hid` — are excluded by decidable
-hypotheses; array mode `value` together with AoH mode `key`, and AoH mode `deep`, are not covered.)
+hypotheses; array mode `position` — `diff_clean_iff_dataEq_all_partial` below covers every array and AoH mode.)
 **The report of the code under `--aoh key` is clean exactly when the documents are equal as data.** -/
 theorem diff_clean_iff_dataEq_key_partial (c : Cfg) (hc : KeyPos c) (l r : Node)
     (hl : wf l = true) (hr : wf r = true) (hid : idOk c l r = true)
@@ -281,6 +280,197 @@ example :
                                                        .map none [(.str ['y'], .scalar none (.int 2))]])]
     idOk ⟨.position, .key⟩ d d = false ∧ clean (report ⟨.position, .key⟩ d d) = false ∧
       dataEq ⟨.position, .key⟩ d d = true := by decide +kernel
+
+/-! ## Every array mode × every AoH mode (`--aoh key` with `--arrays value`, `--aoh deep`) -/
+
+/-- **Clean ⇔ equal as data, every array mode × every AoH mode (strict report).**  Any two well-formed
+documents, any `c`: if `idOk c l r` — at every pair of lists the comparison can reach (mapping entries with
+the same key, list elements at the same position, under value synchronisation every pair of `==`-equal
+elements, under `deep` every pair of records with equal identity values; to any depth) that is synchronised
+by identity key, every left record carries the identity key (under `deep`: with a scalar identity value) and
+no two right records share an identity value (decidable, Spec/Diff.lean; its negation is finding C06-K2's
+class) — then the report is clean exactly when the documents are equal as data (`dataEq`): mappings key by
+key, sets member by member, lists position by position / as multisets of `==`-equal elements (value, key) /
+as multisets of records that are again equal as data (`deep`, the recursive `dataEqMs`).
+Proof (`Lemmas/DiffAll.lean`): `keysync_clean_iff` — the lockstep induction over `synchronize_lods_by_key`
+for a pair relation that implies "same identity value" (`keyMatch_of_dataEq`), the pair's own diff in place
+of the whole-record comparison; `dataEq_of_eqv_node` — `==`-equal documents are equal as data in every mode,
+so that the second comparison of a value-matched pair is clean. -/
+theorem diff_clean_iff_dataEq_all_strict (c : Cfg) (l r : Node)
+    (hl : wf l = true) (hr : wf r = true) (hid : idOk c l r = true) :
+    clean (diff true c l r) = true ↔ dataEq c l r = true :=
+  Ypv.Diff.AllModes.diff_clean_iff_dataEq_all_strict c l r hl hr hid
+
+/-- (`_partial`: the classes of findings C06-K1 — `hv` — and C06-K2 — `hid` — are excluded by decidable
+hypotheses; nothing else is.)  **The report of the code is clean exactly when the documents are equal as
+data — every array mode, every AoH mode.** -/
+theorem diff_clean_iff_dataEq_all_partial (c : Cfg) (l r : Node)
+    (hl : wf l = true) (hr : wf r = true) (hid : idOk c l r = true)
+    (hv : report c l r = diff true c l r) :
+    clean (report c l r) = true ↔ dataEq c l r = true := by
+  rw [hv]; exact Ypv.Diff.AllModes.diff_clean_iff_dataEq_all_strict c l r hl hr hid
+
+/-- … and `yaml-diff` exits with 0 exactly then -/
+theorem diff_exit_zero_iff_dataEq_all_partial (c : Cfg) (l r : Node)
+    (hl : wf l = true) (hr : wf r = true) (hid : idOk c l r = true)
+    (hv : report c l r = diff true c l r) :
+    exitStatus (report c l r) = 0 ↔ dataEq c l r = true :=
+  (Ypv.Diff.Proofs.exit_zero_iff_clean _).trans (diff_clean_iff_dataEq_all_partial c l r hl hr hid hv)
+
+/-- `idOk` is no condition in the modes without identity-key synchronisation (so the two theorems above
+contain `diff_clean_iff_dataEq_strict` / `_partial`) -/
+theorem idOk_of_noKeySync (c : Cfg) (hc : NoKeySync c) (l r : Node) : idOk c l r = true :=
+  Ypv.Diff.AllModes.idOk_of_noKeySync c hc l r
+
+/-- **Documents equal under Python `==` are equal as data** in every mode (under `idOk`) -/
+theorem dataEq_of_eqv (c : Cfg) (l r : Node) (hl : wf l = true) (hr : wf r = true)
+    (h : eqv r l = true) (hid : idOk c l r = true) : dataEq c l r = true :=
+  Ypv.Diff.AllModes.dataEq_of_eqv_node c l r hl hr h hid
+
+/-- `--aoh deep --arrays value`: `[{id: 1, items: [{id: a, v: 1}, {id: b, v: 2}], tags: [x, y]}, {id: 2}]`
+against the same with the records swapped at both levels and the tags reordered (`v` of record `b` = `w`) -/
+def deepL : Node := .seq none
+  [.map none [(.str "id".toList, .scalar none (.int 1)),
+              (.str "items".toList, .seq none [.map none [(.str "id".toList, .scalar none (.str ['a'])), (.str ['v'], .scalar none (.int 1))],
+                                               .map none [(.str "id".toList, .scalar none (.str ['b'])), (.str ['v'], .scalar none (.int 2))]]),
+              (.str "tags".toList, .seq none [.scalar none (.str ['x']), .scalar none (.str ['y'])])],
+   .map none [(.str "id".toList, .scalar none (.int 2))]]
+def deepR (w : Int) : Node := .seq none
+  [.map none [(.str "id".toList, .scalar none (.int 2))],
+   .map none [(.str "id".toList, .scalar none (.int 1)),
+              (.str "items".toList, .seq none [.map none [(.str "id".toList, .scalar none (.str ['b'])), (.str ['v'], .scalar none (.int w))],
+                                               .map none [(.str "id".toList, .scalar none (.str ['a'])), (.str ['v'], .scalar none (.int 1))]]),
+              (.str "tags".toList, .seq none [.scalar none (.str ['y']), .scalar none (.str ['x'])])]]
+example : wf deepL = true ∧ wf (deepR 2) = true ∧
+    idOk ⟨.value, .deep⟩ deepL (deepR 2) = true ∧ idOk ⟨.value, .deep⟩ deepL (deepR 3) = true ∧
+    report ⟨.value, .deep⟩ deepL (deepR 2) = diff true ⟨.value, .deep⟩ deepL (deepR 2) ∧
+    clean (report ⟨.value, .deep⟩ deepL (deepR 2)) = true ∧ dataEq ⟨.value, .deep⟩ deepL (deepR 2) = true ∧
+    eqv (deepR 2) deepL = false ∧
+    clean (report ⟨.value, .deep⟩ deepL (deepR 3)) = false ∧ dataEq ⟨.value, .deep⟩ deepL (deepR 3) = false := by
+  decide +kernel
+/-- `--aoh key --arrays value`: `[[{id: 1}, {id: 2}], 7]` against `[7, [{id: 1}, {id: 2}]]` — the value-matched
+inner record lists are compared again by identity key; hypotheses met, clean and equal as data -/
+example :
+    let l : Node := .seq none [.seq none [.map none [(.str "id".toList, .scalar none (.int 1))],
+                                          .map none [(.str "id".toList, .scalar none (.int 2))]], .scalar none (.int 7)]
+    let r : Node := .seq none [.scalar none (.int 7),
+                               .seq none [.map none [(.str "id".toList, .scalar none (.int 1))],
+                                          .map none [(.str "id".toList, .scalar none (.int 2))]]]
+    idOk ⟨.value, .key⟩ l r = true ∧ report ⟨.value, .key⟩ l r = diff true ⟨.value, .key⟩ l r ∧
+      clean (report ⟨.value, .key⟩ l r) = true ∧ dataEq ⟨.value, .key⟩ l r = true := by decide +kernel
+/-- finding C06-K2 inside a value-matched pair: `[[{x: 1}, {y: 2}]]` against itself under
+`--aoh key --arrays value` — `idOk` fails, the report is not clean although the documents are equal -/
+example :
+    let d : Node := .seq none [.seq none [.map none [(.str ['x'], .scalar none (.int 1))],
+                                          .map none [(.str ['y'], .scalar none (.int 2))]]]
+    idOk ⟨.value, .key⟩ d d = false ∧ clean (report ⟨.value, .key⟩ d d) = false ∧
+      dataEq ⟨.value, .key⟩ d d = true := by decide +kernel
+/-- finding C06-K2 under `--aoh deep`: a container identity value — `[{id: [1, 2]}]` against `[{id: [2, 1]}]`
+with `--arrays value` is equal as data, the identity values are not `==`: DELETE + ADD; `idOk` fails.
+Likewise two right records sharing an identity value. -/
+example :
+    let l : Node := .seq none [.map none [(.str "id".toList, .seq none [.scalar none (.int 1), .scalar none (.int 2)])]]
+    let r : Node := .seq none [.map none [(.str "id".toList, .seq none [.scalar none (.int 2), .scalar none (.int 1)])]]
+    let d : Node := .seq none [.map none [(.str "id".toList, .scalar none (.int 1))], .map none [(.str "id".toList, .scalar none (.int 1))]]
+    idOk ⟨.value, .deep⟩ l r = false ∧ clean (report ⟨.value, .deep⟩ l r) = false ∧ dataEq ⟨.value, .deep⟩ l r = true ∧
+      idOk ⟨.position, .deep⟩ d d = false := by decide +kernel
+
+/-! ## Per-path comparison modes: the `[rules]` / `[keys]` sections of the configuration file
+
+`Model/DiffRules.lean` (namespace `Ypv.Diff.Rules`): the comparers with the coordinate (node, parent, parentref) of
+the right-hand node threaded through, `_get_config_for`, `array_diff_mode` / `aoh_diff_mode` / `aoh_diff_key` with the
+precedence `[rules]` > command line > `[defaults]` > POSITION; `Rules.report glob rules keys l r` takes the addresses
+of the nodes of `r` that `DifferConfig.prepare` matched.  Outcome: a report or a `Crash`. -/
+
+/-- **`_get_config_for` returns the text of the FIRST stored entry whose node, parent and parentref are `==`
+(Python equality, not identity) to those of the node asked about** — `""` when there is none. -/
+theorem get_config_for_first_match (es : List Rules.RuleEntry) (q : Rules.Coord) :
+    Rules.getConfigFor es q = match es.find? (fun e => Rules.coordMatch e.nc q) with
+      | some e => e.text
+      | none => [] :=
+  Rules.getConfigFor_eq_find es q
+
+/-- **Without a configuration file the per-path model is the model of the global modes**: same report, no crash —
+for every document pair, both `strict` values, every array × AoH mode.  (So every theorem above is a theorem
+about `Rules.diff` at `PCfg.plain c`.) -/
+theorem rules_plain_is_global (s : Bool) (c : Cfg) (l r : Node) :
+    Rules.diff s (Rules.PCfg.plain c) l r = .ok (diff s c l r) :=
+  Rules.plain_node s c l r [] none none
+
+/-- **`diff_truthful` under per-path modes.**  Any configuration `pc` (global modes, `[rules]`, `[keys]` entries as
+`DifferConfig.prepare` stores them), any two well-formed documents: if every pair of lists the comparison reaches —
+through mapping entries with the same key and list elements at the same position — resolves to a positional
+comparison under `pc` (`Rules.posReach`, decidable, Spec/DiffRules.lean: the `[rules]` entry found the way
+`_get_config_for` finds it, else the command line, else `[defaults]`, else POSITION; no mode text that makes
+`from_str` raise), then `compare_to` returns a report and every entry of it is true of the two documents: a
+SAME/CHANGE/DELETE entry's left value is what the left document holds at `e.path`, a SAME/CHANGE/ADD entry's right
+value is what the right document holds there, SAME values are equal, CHANGE values differ, an ADD has no left and a
+DELETE no right value.  Contains `diff_truthful` (`posReach_plain` + `rules_plain_is_global`); a `[rules]` entry
+`position` restores truthfulness for its list under `--arrays value` (witness below); where an entry is captured
+by an equal list elsewhere (finding C06-K3) `posReach` fails and so does truthfulness (witness below). -/
+theorem diff_truthful_rules (s : Bool) (pc : Rules.PCfg) (l r : Node)
+    (hl : wf l = true) (hr : wf r = true) (hp : Rules.posReach pc none none l r = true) :
+    ∃ rep, Rules.diff s pc l r = .ok rep ∧ ∀ e ∈ rep,
+      (e.action ≠ .add → e.lhs.isSome ∧ e.lhs = l.get? e.path)
+      ∧ (e.action ≠ .delete → e.rhs.isSome ∧ e.rhs = r.get? e.path)
+      ∧ (e.action = .add → e.lhs = none) ∧ (e.action = .delete → e.rhs = none)
+      ∧ (e.action = .same → ∃ a b, e.lhs = some a ∧ e.rhs = some b ∧ eqv a b = true)
+      ∧ (e.action = .change → ∃ a b, e.lhs = some a ∧ e.rhs = some b ∧ eqv a b = false) := by
+  obtain ⟨rep, h1, h2⟩ := Rules.truthful_node s pc l r [] none none hl hr hp
+  refine ⟨rep, h1, ?_⟩
+  intro e he
+  cases h2 e he with
+  | same q a b h1 h2 h3 => simp [h1, h2, h3]
+  | change q a b h1 h2 h3 => simp [h1, h2, h3]
+  | delete q a h1 => simp [h1]
+  | add q b h2 => simp [h2]
+
+/-- with no `[rules]` the hypothesis of `diff_truthful_rules` is `Positional` of the global modes -/
+theorem posReach_plain (c : Cfg) (hc : Positional c) (l r : Node) :
+    Rules.posReach (Rules.PCfg.plain c) none none l r = true :=
+  Rules.posReach_plain c hc l r none none
+
+/-- `{a: [1, 2]}` against `{a: [2, 1]}` with `--arrays value` and the rule `/a = position`: the hypothesis holds and
+the list is compared by position (two CHANGE entries); without the rule it is synchronised by value (clean) -/
+example :
+    let l : Node := .map none [(.str ['a'], .seq none [.scalar none (.int 1), .scalar none (.int 2)])]
+    let r : Node := .map none [(.str ['a'], .seq none [.scalar none (.int 2), .scalar none (.int 1)])]
+    let pc := Rules.prepare ⟨.value, .position⟩ r [([.key (.str ['a'])], "position".toList)] []
+    Rules.posReach pc none none l r = true ∧
+    Rules.diff false pc l r = .ok [⟨.change, [.key (.str ['a']), .idx 0], some (.scalar none (.int 1)), some (.scalar none (.int 2))⟩,
+                                   ⟨.change, [.key (.str ['a']), .idx 1], some (.scalar none (.int 2)), some (.scalar none (.int 1))⟩] ∧
+    Rules.posReach (Rules.PCfg.plain ⟨.value, .position⟩) none none l r = false ∧
+    clean (report ⟨.value, .position⟩ l r) = true := by decide +kernel
+
+/-- finding C06-K3 on the model: rule `/a/p = value`, right document `{a: {p: [1, 2]}, b: [{p: [1, 2]}]}`, left
+`b[0].p = [2, 1]`, `--aoh dpos`.  The entry stored for `a.p` is found for `b[0].p` too (equal list, equal parent, same
+key): that list is synchronised by value, `posReach` fails, and the report says `SAME b[0].p[0] 2 2` although the
+right document holds `1` there. -/
+example :
+    let p12 : Node := .seq none [.scalar none (.int 1), .scalar none (.int 2)]
+    let p21 : Node := .seq none [.scalar none (.int 2), .scalar none (.int 1)]
+    let l : Node := .map none [(.str ['a'], .map none [(.str ['p'], p12)]), (.str ['b'], .seq none [.map none [(.str ['p'], p21)]])]
+    let r : Node := .map none [(.str ['a'], .map none [(.str ['p'], p12)]), (.str ['b'], .seq none [.map none [(.str ['p'], p12)]])]
+    let pc := Rules.prepare ⟨.position, .dpos⟩ r [([.key (.str ['a']), .key (.str ['p'])], "value".toList)] []
+    let bp0 : Addr := [.key (.str ['b']), .idx 0, .key (.str ['p']), .idx 0]
+    Rules.getConfigFor pc.rules ⟨p12, some (.map none [(.str ['p'], p12)]), some (.str ['p'])⟩ = "value".toList ∧
+    Rules.posReach pc none none l r = false ∧
+    (match Rules.diff false pc l r with
+     | .ok rep => rep.any (fun e => e == ⟨.same, bp0, some (.scalar none (.int 2)), some (.scalar none (.int 2))⟩)
+     | .error _ => false) = true ∧
+    r.get? bp0 = some (.scalar none (.int 1)) := by decide +kernel
+
+/-- findings C06-K4 / C06-K5 on the model: the rule `dpos` for a record list dies in `ArrayDiffOpts.from_str`
+(`NameError`); a `[keys]` entry `n` for the single record `a[1]` dies in `lhs_ele[use_key]` (`KeyError`) when the
+left record has the inferred identity key `id` but no `n` -/
+example :
+    let rec1 : Node := .map none [(.str "id".toList, .scalar none (.int 1))]
+    let rec2 : Node := .map none [(.str "id".toList, .scalar none (.int 2))]
+    let rec2n : Node := .map none [(.str "id".toList, .scalar none (.int 2)), (.str ['n'], .scalar none (.str ['x']))]
+    let l : Node := .map none [(.str ['a'], .seq none [rec1, rec2])]
+    let r : Node := .map none [(.str ['a'], .seq none [rec1, rec2n])]
+    Rules.report ⟨.position, .position⟩ [([.key (.str ['a'])], "dpos".toList)] [] l l = .error .nameError ∧
+    Rules.report ⟨.position, .key⟩ [] [([.key (.str ['a']), .idx 1], ['n'])] l r = .error .keyError := by decide +kernel
 
 /-! ## Witnesses: the hypotheses are met by non-trivial values; the findings on the model -/
 
